@@ -361,7 +361,22 @@ func (t *tenantRun) step() {
 func (t *tenantRun) audit() {
 	cl := t.clients[0]
 	t.script = append(t.script, "audit-after-restart")
-	resp := cl.Do("GET", "/v2/collections", nil)
+	// a node that has just been restarted may answer 5xx until its peers' RPC
+	// listeners accept again: that is availability, not isolation - ask again
+	// (bounded number of attempts); a 5xx that persists is reported
+	settled := func(method, path string, body any) httpx.Response {
+		var r httpx.Response
+		for attempt := 0; attempt < 15; attempt++ {
+			r = cl.Do(method, path, body)
+			if r.Err == nil && r.Status < 500 {
+				return r
+			}
+			t.res.Stat("audit_retries_after_5xx", 1)
+			time.Sleep(200 * time.Millisecond)
+		}
+		return r
+	}
+	resp := settled("GET", "/v2/collections", nil)
 	got := []string{}
 	if arr, ok := resp.JSON["collections"].([]any); ok {
 		for _, e := range arr {
@@ -385,7 +400,7 @@ func (t *tenantRun) audit() {
 			ids = append(ids, id)
 		}
 		sort.Strings(ids)
-		r2 := cl.Do("GET", "/v2/collections/"+col, nil)
+		r2 := settled("GET", "/v2/collections/"+col, nil)
 		sum := 0.0
 		if shards, ok := r2.JSON["shards"].([]any); ok {
 			for _, s := range shards {
@@ -403,7 +418,7 @@ func (t *tenantRun) audit() {
 		if len(ids) == 0 {
 			continue
 		}
-		r3 := cl.Do("POST", "/v2/collections/"+col+"/points/search", map[string]any{
+		r3 := settled("POST", "/v2/collections/"+col+"/points/search", map[string]any{
 			"query":  map[string]any{"property": "_id", "stringArray": map[string]any{"value": ids, "operator": "containsAny"}},
 			"select": []string{"note"}, "limit": 100})
 		arr, _ := r3.JSON["points"].([]any)
